@@ -192,6 +192,13 @@ def build_dataset(idx: int, variant: int = 0) -> xarray.Dataset:
         # variant 1: the attribute is missing altogether
         dv["Mesh"] = xarray.DataArray(numpy.int32(0), attrs=attrs)
     ds = xarray.Dataset(dv, coords=coords)
+    if variant % 3 == 2 and f["ll"] == "2d":
+        # labelled 1-D projection axes, coordinate variables declared AFTER the 2-D latitude / longitude data variables
+        ds = ds.assign_coords(y=("y", z(2), {"axis": "Y", "units": "m"}), x=("x", z(3), {"axis": "X", "units": "m"}))
+    elif variant % 3 == 2 and f["ll"] == "1d":
+        # 2-D geographic coordinates declared AFTER the 1-D latitude / longitude data variables
+        ds = ds.assign_coords(nav_lat=(("y", "x"), z((2, 3)), {"standard_name": "latitude"}),
+                              nav_lon=(("y", "x"), z((2, 3)), {"standard_name": "longitude"}))
     if f["ems"]:
         ds.attrs["ems_version"] = "v1"
     if f["ugconv"]:
